@@ -25,4 +25,97 @@ MUTANTS = [
                  "            Ok(bucket) => { unsafe { bucket.as_mut().0 = k; } Some(mem::replace(unsafe { &mut bucket.as_mut().1 }, v)) }")]),
     dict(name="same-group-always", checks=["C01"], desc="is_in_same_group always true",
          edits=[(RAW, "        probe_index(i) == probe_index(new_i)\n", "        probe_index(i) == probe_index(new_i) || true\n")]),
+    dict(name="c04-unfix-rehash-guard", checks=["C04"], desc="the unrepaired rehash_in_place guard (DESIGN section 10)",
+         edits=[(RAW, """                    if let Some(drop) = drop {
+                        drop(self_.bucket_ptr(i, size_of));
+                    }
+                    self_.items -= 1;""", """                    if let Some(drop) = drop {
+                        drop(self_.bucket_ptr(i, size_of));
+                        self_.items -= 1;
+                    }""")]),
+    dict(name="c04-clear-no-guard", checks=["C04"], desc="RawTable::clear without its scope guard",
+         edits=[(RAW, """        let mut self_ = guard(self, |self_| self_.clear_no_drop());
+        unsafe {
+            // SAFETY: ScopeGuard sets to zero the `items` field of the table
+            // even in case of panic during the dropping of the elements so
+            // that there will be no double drop of the elements.
+            self_.table.drop_elements::<T>();
+        }""", """        unsafe {
+            self.table.drop_elements::<T>();
+        }
+        self.clear_no_drop();""")]),
+    dict(name="c04-erase-drop-first", checks=["C04"], desc="erase drops the element before unlinking it",
+         edits=[(RAW, """        self.erase_no_drop(&item);
+        item.drop();""", """        item.drop();
+        self.erase_no_drop(&item);""")]),
+    dict(name="c04-clone_from_impl-no-guard", checks=["C04"], desc="clone_from_impl guard does not drop the clones made so far",
+         edits=[(RAW, """            if T::NEEDS_DROP {
+                for i in 0..*index {""", """            if false && T::NEEDS_DROP {
+                for i in 0..*index {""")]),
+    # ---- C03
+    dict(name="c03-clear-skips-drop", checks=["C03"], desc="clear does not drop the elements",
+         edits=[(RAW, """            // that there will be no double drop of the elements.
+            self_.table.drop_elements::<T>();""", """            // that there will be no double drop of the elements.
+            let _ = &mut self_;""")]),
+    dict(name="c03-clone_from-skips-drop", checks=["C03", "C11"], desc="clone_from does not drop the old elements",
+         edits=[(RAW, """                // will be equal to zero.
+                self_.table.drop_elements::<T>();""", """                // will be equal to zero.
+                """)]),
+    dict(name="c03-intoiter-drop-skips-rest", checks=["C03"], desc="RawIntoIter::drop does not drop the remainder",
+         edits=[(RAW, """#[cfg(not(feature = "nightly"))]
+impl<T, A: Allocator> Drop for RawIntoIter<T, A> {
+    #[cfg_attr(feature = "inline-more", inline)]
+    fn drop(&mut self) {
+        unsafe {
+            // Drop all remaining elements
+            self.iter.drop_elements();""", """#[cfg(not(feature = "nightly"))]
+impl<T, A: Allocator> Drop for RawIntoIter<T, A> {
+    #[cfg_attr(feature = "inline-more", inline)]
+    fn drop(&mut self) {
+        unsafe {
+            // Drop all remaining elements""")]),
+    dict(name="c03-free-wrong-layout", checks=["C03"], desc="free_buckets passes a layout one byte short",
+         edits=[(RAW, "        alloc.deallocate(ptr, layout);\n    }\n\n    /// Returns a pointer to the allocated memory",
+                 "        alloc.deallocate(ptr, Layout::from_size_align_unchecked(layout.size() - 1, layout.align()));\n    }\n\n    /// Returns a pointer to the allocated memory")]),
+    # ---- C06
+    dict(name="c06-insert_in_slot-always-decrements", checks=["C06"], desc="record_item_insert_at always consumes growth_left",
+         edits=[(RAW, "        self.growth_left -= usize::from(old_ctrl.special_is_empty());\n        self.set_ctrl_hash(index, hash);",
+                 "        self.growth_left = self.growth_left.saturating_sub(1);\n        let _ = old_ctrl;\n        self.set_ctrl_hash(index, hash);")]),
+    dict(name="c06-iter_hash-wrong-group", checks=["C06"], desc="RawIterHashInner loads the group after the probe position",
+         edits=[(RAW, "                let index = self.probe_seq.pos;\n                debug_assert!(index < self.bucket_mask + 1 + Group::WIDTH);",
+                 "                let index = (self.probe_seq.pos + Group::WIDTH) & self.bucket_mask;\n                debug_assert!(index < self.bucket_mask + 1 + Group::WIDTH);")]),
+    # ---- C09
+    dict(name="c09-size_hint-plus-one", checks=["C09"], desc="RawIter::size_hint reports one more",
+         edits=[(RAW, "        (self.items, Some(self.items))", "        (self.items + 1, Some(self.items + 1))")]),
+    dict(name="c09-clone-resets-group", checks=["C09"], desc="RawIterRange::clone re-reads the current group",
+         edits=[(RAW, "            current_group: self.current_group.clone(),\n            end: self.end,",
+                 "            current_group: unsafe { Group::load_aligned(self.next_ctrl.sub(Group::WIDTH).cast()).match_full().into_iter() },\n            end: self.end,")]),
+    # ---- C10
+    dict(name="c10-drain-drop-skips-clear", checks=["C10"], desc="RawDrain::drop does not reset the control bytes",
+         edits=[(RAW, "            // Reset the contents of the table now that all elements have been\n            // dropped.\n            self.table.clear_no_drop();",
+                 "            // Reset the contents of the table now that all elements have been\n            // dropped.")]),
+    dict(name="c10-retain-skips-last", checks=["C10"], desc="HashMap::retain keeps an element its predicate rejected when it is the only one left",
+         edits=[(MAP, "                if !f(key, value) {\n                    self.table.erase(item);", "                if !f(key, value) && self.table.len() > 1 {\n                    self.table.erase(item);")]),
+    # ---- C11
+    dict(name="c11-eq-ignores-len", checks=["C11"], desc="PartialEq does not compare len",
+         edits=[(MAP, "        if self.len() != other.len() {\n            return false;\n        }\n\n        self.iter()\n            .all(|(key, value)| other.get(key).map_or(false, |v| *value == *v))",
+                 "        self.iter()\n            .all(|(key, value)| other.get(key).map_or(false, |v| *value == *v))")]),
+    dict(name="c11-clone_from_impl-skips-growth_left", checks=["C11"], desc="clone_from_impl does not copy growth_left",
+         edits=[(RAW, "        mem::forget(guard);\n\n        self.table.items = source.table.items;\n        self.table.growth_left = source.table.growth_left;",
+                 "        mem::forget(guard);\n\n        self.table.items = source.table.items;")]),
+    # ---- C13
+    dict(name="c13-inplace-threshold-64", checks=["C13"], desc="in-place rehash only below capacity/64",
+         edits=[(RAW, "        if new_items <= full_capacity / 2 {", "        if new_items <= full_capacity / 64 {")]),
+    # ---- C14
+    dict(name="c14-rustc_entry-no-reserve", checks=["C14"], desc="rustc_entry does not reserve before handing out a vacant entry",
+         edits=[("src/rustc_entry.rs", "            self.reserve(1);", "            ")]),
+    dict(name="c14-replace_bucket_with-growth_left", checks=["C14"], desc="replace_bucket_with does not restore growth_left",
+         edits=[(RAW, "            self.table.growth_left = old_growth_left;\n", "            let _ = old_growth_left;\n")]),
+    # ---- C15
+    dict(name="c15-no-duplicate-check", checks=["C15"], desc="get_many_mut duplicate check removed",
+         edits=[(RAW, "                if cur.is_some() && ptrs[..i].contains(cur) {", "                if false && cur.is_some() && ptrs[..i].contains(cur) {")]),
+    # ---- C05
+    dict(name="c05-no-fix_insert_slot", checks=["C05"], desc="small-table insert fix-up removed (needs broken hashing to matter? no: any small table)",
+         edits=[(RAW, "        if unlikely(self.is_bucket_full(index)) {\n            debug_assert!(self.bucket_mask < Group::WIDTH);",
+                 "        if false && unlikely(self.is_bucket_full(index)) {\n            debug_assert!(self.bucket_mask < Group::WIDTH);")]),
 ]
